@@ -2,6 +2,7 @@
 between the extracted model and the implementation), oracles (the property evaluated on the
 implementation's own observations; the search for a failing input), known-finding classes."""
 import itertools
+import random
 import json
 import os
 import re
@@ -356,6 +357,17 @@ def gen_key_history(g, nfmt=4, length=None, with_maps=True, mseq=None):
             pending, mp = [], None
     a["segs"].append({"keys_before": pending, "map": mp, "uri": "s%d.ts" % len(a["segs"]), "dur": "10", "title": None,
                       "disc": False, "pdt": None, "range": None, "daterange": None})
+    if g.chance(0.25):
+        # the segments are consecutive sub-ranges of ONE resource (offset given for the first, omitted or given for the others):
+        # the keys of a segment are still the ones in effect at its URI line
+        off = 0
+        for j, s_ in enumerate(a["segs"]):
+            s_["uri"] = "media.mp4"
+            ln = g.pick([1000, 1, 4096])
+            s_["range"] = (ln, off if (j == 0 or g.chance(0.3)) else None)
+            off += ln
+            if g.chance(0.15):
+                s_["disc"] = True
     return a
 
 
@@ -735,8 +747,19 @@ class C08(Prop):
             if k in maps:
                 muri, mr = maps[k]
                 lines.append('#EXT-X-MAP:URI="%s"%s' % (muri, "" if mr is None else ',BYTERANGE="%s"' % ("%d@%d" % mr if mr[1] is not None else "%d" % mr[0])))
+            rr = random.Random(n * 7919 + k)
+            neutral = []
+            if rr.random() < 0.25:
+                # tags of the segment that have no bearing on where its sub-range starts
+                for _ in range(rr.randint(1, 2)):
+                    neutral.append(rr.choice(["#EXT-X-DISCONTINUITY", '#EXT-X-KEY:METHOD=AES-128,URI="k%d"' % k, "#EXT-X-KEY:METHOD=NONE",
+                                              "#EXT-X-PROGRAM-DATE-TIME:2020-01-01T00:00:0%d.000Z" % (k % 10), '#EXT-X-DATERANGE:ID="d%d",START-DATE="2020-01-01T00:00:00Z"' % k]))
+            neutral = list(dict.fromkeys(neutral))
+            cut = rr.randint(0, len(neutral))
+            lines += neutral[:cut]
             if r is not None:
                 lines.append("#EXT-X-BYTERANGE:%d%s" % (r[0], "" if r[1] is None else "@%d" % r[1]))
+            lines += neutral[cut:]
             lines.append("#EXTINF:5,")
             lines.append(uri)
         exp = resolve_ranges(chain)
@@ -873,6 +896,17 @@ class C09(Prop):
                         ns = x * 10 ** 9 + 5 * 10 ** 8 + delta
                         out.append(self._case(n, t, al, [ns], g)); n += 1
                         out.append(self._bcase(n, t, al, [ns])); n += 1
+        # the top of the Duration range (builder only: no text denotes these exactly): target + allowance saturates at Duration::MAX,
+        # and u64::MAX s + 0.5 s rounds to 2^64 s, which is above every bound
+        TOP = 2 ** 64 - 1
+        for t in (TOP, TOP - 1):
+            for al in (None, 0, 10 ** 9, (2 ** 64 - 1) * 10 ** 9 + 999999999):
+                for x in (TOP, TOP - 1, TOP - 2):
+                    for frac in (0, 499999999, 500000000, 999999999):
+                        out.append(self._bcase(n, t, al, [x * 10 ** 9 + frac])); n += 1
+        for al in ((2 ** 64 - 1) * 10 ** 9 + 999999999, (2 ** 64 - 1) * 10 ** 9):
+            for frac in (499999999, 500000000, 999999999):
+                out.append(self._bcase(n, 10, al, [TOP * 10 ** 9 + frac])); n += 1
         # allowances with a sub-second part: the bound is target + allowance, the segment duration is rounded first
         for t in (0, 8, 2 ** 24):
             for al in (500000001, 700000000, 999999999, 1700000000, 499999999):
@@ -1084,6 +1118,17 @@ class C11(Prop):
                     text = text.replace('URI="', 'KEYFORMATVERSIONS="%s",URI="' % "/".join(str(g.pick([1, 2, 3])) for _ in range(g.r.randint(9, 12))), 1) if g.chance(0.5) else gen.mutate(text, g)
                 out.append(mk("m", n, "repeat_media", hx(text), 8, base="media", model=False))
                 out.append(mk("M", n, "media", hx(text), base="media"))
+                if n % 3 == 0:
+                    # the same text parsed twice through ONE builder (MediaPlaylistBuilder::parse takes &mut self): the second
+                    # result is a function of the text too.  Unknown tags in some of them.
+                    t2 = text
+                    if g.chance(0.6):
+                        ls = t2.split("\n")
+                        for _ in range(g.r.randint(1, 2)):
+                            ls.insert(g.r.randrange(1, len(ls)), g.pick(["#EXT-X-CUE-OUT:30", "#EXT-UNKNOWN", "#EXT-X-FOO:a=b"]))
+                        t2 = "\n".join(ls)
+                    out.append(mk("w", n, "media_twice", hx(t2), hx(t2), base="twice", model=False))
+                    out.append(mk("W", n, "media", hx(t2), base="media"))
         return out
 
     def judge(self, run, c, m, i):
@@ -1104,6 +1149,11 @@ class C11(Prop):
             nkeys = unparse(t[1][4]).count("(key ")
             return {"agree": None, "ok": ok, "nontrivial": nkeys >= 2 or c["meta"]["base"] == "master",
                     "detail": "" if ok else "repetitions differ: flags=%s across-processes=%s single-parse=%s" % (flags, same_proc, single), "stats": {"repeat": 1}}
+        if c["op"] == "media_twice":
+            partner = run.impl.get("W" + c["id"][1:])
+            ok = (i == partner)
+            return {"agree": None, "ok": ok, "nontrivial": res_kind(i) == "ok", "stats": {"twice": 1},
+                    "detail": "" if ok else "the second parse of the same text through one builder differs from a fresh parse: %s vs %s" % ((i or "")[:300], (partner or "")[:300])}
         agree = (m == i) if m is not None else None
         return {"agree": agree, "ok": None, "nontrivial": False}
 
@@ -1328,7 +1378,10 @@ class C15(Prop):
             gen.random_style(g)
             text = gen.render_media(gen.gen_media(g), g) if k % 2 else gen.render_master(gen.gen_master(g), g)
             if g.chance(0.3):
-                text = text.replace("#EXTM3U", g.pick(["", "#EXTM3", "#EXT-X-VERSION:3\n#EXTM3U"]), 1)
+                # the header is the first thing after white space: a byte-order mark, a zero-width character, a comment line or
+                # another tag in front of it means the text lacks the header
+                text = text.replace("#EXTM3U", g.pick(["", "#EXTM3", "#EXT-X-VERSION:3\n#EXTM3U", "\ufeff#EXTM3U", "\ufeff\ufeff#EXTM3U",
+                                                       "\u200b#EXTM3U", "# c\n#EXTM3U", "\u2060#EXTM3U", "#extm3u", "\ufffe#EXTM3U"]), 1)
             out.append(mk("x", n, "media", hx(text), seq=None, which="media"))
             out.append(mk("y", n, "master", hx(text), seq=None, which="master"))
             n += 1
@@ -1415,13 +1468,24 @@ class C16(Prop):
                 n += 1
             if op == "media" and len(a["segs"]) > 1:
                 for kk in range(1, len(a["segs"])):
-                    out.append(mk("w", n, "media", hx(gen.render_media(slide(a, kk), None)), role="slide", full=full_id, k=kk))
+                    stext = gen.render_media(slide(a, kk), None)
+                    out.append(mk("w", n, "media", hx(stext), role="slide", full=full_id, k=kk))
                     n += 1
+                    if kk == 1 or g.chance(0.3):
+                        # a client that reloads a live playlist through ONE builder: the reloaded (slid) text parses as it does
+                        # with a fresh builder (both texts carry the same playlist-level tags)
+                        out.append(mk("r", n, "media_twice", hx(gen.render_media(a, None)), hx(stext), role="reload", fresh="w%d" % (n - 1), model=False))
+                        n += 1
         return out
 
     def judge(self, run, c, m, i):
         agree = (m == i) if m is not None else None
         role = c["meta"]["role"]
+        if role == "reload":
+            fresh = run.impl.get(c["meta"]["fresh"])
+            ok = (i == fresh)
+            return {"agree": None, "ok": ok, "nontrivial": res_kind(i) == "ok", "stats": {"reload": 1},
+                    "detail": "" if ok else "the slid text parsed through a builder that parsed the unslid text before differs from a fresh parse: %s vs %s" % ((i or "")[:300], (fresh or "")[:300])}
         if role == "full":
             return {"agree": agree, "ok": None, "nontrivial": False}
         full = mres(run.impl.get(c["meta"]["full"]))
@@ -1684,6 +1748,69 @@ class C05(Prop):
                         if line.strip().startswith(pfx) and g.chance(0.3):
                             out.append(mk("c", n, "tag", ty, hx(line), stream="tag", model=False))
                             n += 1
+        # every attribute of every tag line of a few rich playlists, replaced in turn by tokens with stray / unbalanced quotes and
+        # other one-character surprises (a conversion that became fallible behind an unwrap shows only on its own attribute)
+        QUOTE_TOKENS = ['"', '"x', 'x"', 'x"y', '""x', '', ' ', '\\"', "'"]
+        gq = gen.G(seed * 1000003 + 505)
+        RICH = [(False, '#EXTM3U\n#EXT-X-VERSION:7\n#EXT-X-INDEPENDENT-SEGMENTS\n#EXT-X-START:TIME-OFFSET=1.5,PRECISE=YES\n'
+                        '#EXT-X-MEDIA:TYPE=AUDIO,URI="a.m3u8",GROUP-ID="aud",LANGUAGE="en",ASSOC-LANGUAGE="fr",NAME="English",DEFAULT=YES,AUTOSELECT=YES,CHARACTERISTICS="public.accessibility.describes-video",CHANNELS="2"\n'
+                        '#EXT-X-MEDIA:TYPE=SUBTITLES,URI="s.m3u8",GROUP-ID="sub",NAME="S",FORCED=YES,AUTOSELECT=YES\n'
+                        '#EXT-X-MEDIA:TYPE=CLOSED-CAPTIONS,GROUP-ID="cc",NAME="C",INSTREAM-ID="CC1"\n'
+                        '#EXT-X-MEDIA:TYPE=VIDEO,URI="v.m3u8",GROUP-ID="vid",NAME="V"\n'
+                        '#EXT-X-STREAM-INF:BANDWIDTH=2000,AVERAGE-BANDWIDTH=1500,CODECS="avc1.4d401e,mp4a.40.2",RESOLUTION=1280x720,FRAME-RATE=29.97,HDCP-LEVEL=TYPE-0,AUDIO="aud",VIDEO="vid",SUBTITLES="sub",CLOSED-CAPTIONS="cc"\nv1.m3u8\n'
+                        '#EXT-X-STREAM-INF:BANDWIDTH=900,CLOSED-CAPTIONS=NONE\nv2.m3u8\n'
+                        '#EXT-X-I-FRAME-STREAM-INF:BANDWIDTH=500,URI="i.m3u8",CODECS="avc1",RESOLUTION=640x360,HDCP-LEVEL=NONE,VIDEO="vid"\n'
+                        '#EXT-X-SESSION-DATA:DATA-ID="com.example.title",VALUE="t",LANGUAGE="en"\n'
+                        '#EXT-X-SESSION-DATA:DATA-ID="com.example.lyrics",URI="l.json"\n'
+                        '#EXT-X-SESSION-KEY:METHOD=SAMPLE-AES,URI="skd://k",IV=0x000102030405060708090a0b0c0d0e0f,KEYFORMAT="com.apple.streamingkeydelivery",KEYFORMATVERSIONS="1/2"\n'),
+                (True, '#EXTM3U\n#EXT-X-VERSION:7\n#EXT-X-TARGETDURATION:10\n#EXT-X-MEDIA-SEQUENCE:7\n#EXT-X-DISCONTINUITY-SEQUENCE:2\n#EXT-X-PLAYLIST-TYPE:EVENT\n'
+                       '#EXT-X-START:TIME-OFFSET=-2.5\n'
+                       '#EXT-X-KEY:METHOD=AES-128,URI="k1",IV=0x000102030405060708090a0b0c0d0e0f,KEYFORMAT="identity",KEYFORMATVERSIONS="1"\n'
+                       '#EXT-X-MAP:URI="init.mp4",BYTERANGE="100@0"\n'
+                       '#EXT-X-DATERANGE:ID="d1",CLASS="c",START-DATE="2020-01-01T00:00:00Z",END-DATE="2020-01-01T00:01:00Z",DURATION=60,PLANNED-DURATION=60.5,SCTE35-CMD=0xAB,SCTE35-OUT=0xCD,SCTE35-IN=0xEF,X-A="v",X-B=0x0A,X-C=1.5\n'
+                       '#EXT-X-DATERANGE:ID="d2",CLASS="c",START-DATE="2020-01-01T00:00:00Z",END-ON-NEXT=YES\n'
+                       '#EXT-X-PROGRAM-DATE-TIME:2020-01-01T00:00:00Z\n#EXT-X-BYTERANGE:500@100\n#EXTINF:9.5,first\nseg.mp4\n'
+                       '#EXT-X-KEY:METHOD=NONE\n#EXT-X-DISCONTINUITY\n#EXTINF:10,\nplain.ts\n#EXT-X-ENDLIST\n')]
+        nrich = count_tier(tier, 4, 12)
+        for k in range(nrich + len(RICH)):
+            gen.plain_style(gq)
+            if k >= nrich:
+                media, text = RICH[k - nrich]
+            else:
+                media = k % 2 == 0
+                text = gen.render_media(gen.gen_media(gq, nseg=3), None) if media else gen.render_master(gen.gen_master(gq), None)
+            lines = text.split("\n")
+            for li, line in enumerate(lines):
+                if not line.startswith("#EXT") or ":" not in line or "=" not in line:
+                    continue
+                head, rest = line.split(":", 1)
+                parts = gen.split_attrs(rest) if hasattr(gen, "split_attrs") else None
+                if parts is None:
+                    # split at commas outside quotes
+                    parts, cur, inq = [], "", False
+                    for ch in rest:
+                        if ch == '"':
+                            inq = not inq
+                        if ch == "," and not inq:
+                            parts.append(cur); cur = ""
+                        else:
+                            cur += ch
+                    parts.append(cur)
+                for j, part in enumerate(parts):
+                    if "=" not in part:
+                        continue
+                    name = part.split("=", 1)[0]
+                    for tok in QUOTE_TOKENS:
+                        p2 = list(parts)
+                        p2[j] = name + "=" + tok
+                        l2 = list(lines)
+                        l2[li] = head + ":" + ",".join(p2)
+                        out.append(mk("c", n, "media" if media else "master", hx("\n".join(l2)), stream="attr-quotes"))
+                        n += 1
+                        for pfx, ty in self.TAG_TYPES.items():
+                            if l2[li].startswith(pfx):
+                                out.append(mk("c", n, "tag", ty, hx(l2[li]), stream="attr-quotes", model=False))
+                                n += 1
         # boundary stream: structurally valid playlists whose numbers sit at the edges of the integer / duration types, so that
         # every arithmetic step of build() (numbering, byte-range continuation, duration rounding, excess) is reached
         BIG = [0, 1, 2, 2 ** 32, 2 ** 63, 2 ** 64 - 2, 2 ** 64 - 1]
@@ -1921,6 +2048,22 @@ class C13(Prop):
             d19 = ("CLOSED-CAPTIONS", "NONE") in media and any(v["kind"] == "s" and v["cc"] == "NONE" for v in variants)
             out.append(mk("m", n, "master", hx(text), exp=exp, kind="accept"))
             out.append(mk("l", n, "assoc", hx(text), exp=exp, kind="lookup", d19=d19))
+            n += 1
+        # spellings: group ids are compared byte for byte — ids that differ in letter case, by a trailing blank or by a
+        # composed / decomposed letter are DIFFERENT groups (master_consistent compares strings exactly)
+        for k in range(count_tier(tier, 600, 6000)):
+            ids = g.pick([("g1", "G1"), ("aud", "AUD"), ("aud", "Aud"), ("g1", "g1 "), ("gr\u00fcn", "gru\u0308n"), ("a", "A")])
+            media = [(t, i) for t in types for i in ids if g.chance(0.35)]
+            variants = []
+            for _ in range(g.pick([1, 1, 2, 3])):
+                variants.append({"kind": "s", "audio": g.pick([None, ids[0], ids[1]]), "video": g.pick([None, None, ids[0], ids[1]]),
+                                 "subs": g.pick([None, ids[0], ids[1]]), "cc": g.pick([None, ids[0], ids[1]])})
+            if g.chance(0.3):
+                variants.append({"kind": "iframe", "video": g.pick([None, ids[0], ids[1]])})
+            text = master_text(media, variants, [], None)
+            exp = master_consistent(media, variants, [])
+            out.append(mk("m", n, "master", hx(text), exp=exp, kind="accept"))
+            out.append(mk("l", n, "assoc", hx(text), exp=exp, kind="lookup", d19=False))
             n += 1
         # exhaustive: every sequence of up to 4 (thorough: 5) session-data tags over 2 ids x {no language, en, de}, in source order
         pairs = [(d, l) for d in ("a", "b") for l in (None, "en", "de")]
@@ -2717,13 +2860,27 @@ class C20(Prop):
             mseq = g.pick([None, 0, 3, 5])
             use_list = g.chance(0.5)
             script = ["Tn 10000000000"] + (["M %d" % mseq] if mseq is not None else [])
+            effs = []
             for j, x in enumerate(nums):
                 implicit = g.chance(0.25)
-                script += ["seg -" if implicit else "seg %d" % x, "dur 5000000000", "uri s%d.ts" % j, "end list" if use_list else "end push"]
+                seg_lines = ["seg -" if implicit else "seg %d" % x, "dur 5000000000"]
+                eff = None if implicit else x
+                if g.chance(0.2):
+                    # number(..) called again on the same segment builder: the last call wins, number(None) clears the number
+                    for _ in range(g.r.randint(1, 2)):
+                        eff = g.pick([None, x, g.r.randint(0, cnt + 2)])
+                        seg_lines.insert(g.r.randint(1, len(seg_lines)), "num none" if eff is None else "num %d" % eff)
+                    # (the inserted lines are in call order only if inserted behind each other: recompute from the final text)
+                    eff = None if implicit else x
+                    for ln in seg_lines:
+                        if ln.startswith("num "):
+                            eff = None if ln == "num none" else int(ln.split()[1])
+                effs.append(eff)
+                script += seg_lines + ["uri s%d.ts" % j, "end list" if use_list else "end push"]
             script += (["segments"] if use_list else []) + ["build"]
             # independent expectation: the slot vector (index = position); explicit numbers select their slot, implicit segments go
             # behind the last slot (push_segment: in call order; segments(): explicit ones first, then the implicit ones)
-            calls = [(None if ln == "seg -" else int(ln.split()[1])) for ln in script if ln.startswith("seg ")]
+            calls = effs
             order = calls if not use_list else [x for x in calls if x is not None] + [x for x in calls if x is None]
             slots = []
             for x in order:
